@@ -611,6 +611,54 @@ def nested_case(case):
     return len(log)
 
 
+def resort_case(case):
+    """A system re-prioritises others and puts the scheduler's public queue in order IN PLACE (sort / reverse) from inside
+    its turn.  Which order the queue then has is the user's doing - but in the timestep in which it happens nobody runs
+    twice and nobody registered throughout is skipped."""
+    reset_library()
+    model = new_model(seed=1)
+    log = []
+
+    class Rec(Core.System):
+        def execute(self):
+            log.append((self.model.systems.timestep, self.id))
+
+    class Rebalance(Rec):
+        def execute(self):
+            super().execute()
+            if self.model.systems.timestep == case['t']:
+                q = self.model.systems.execution_queue
+                if case['how'] == 'reverse':
+                    q.reverse()
+                else:
+                    for s_ in q:
+                        if s_.id in case['bump']:
+                            s_.priority = case['bump'][s_.id]
+                    q.sort(key=lambda s_: -s_.priority)
+    prios = case['prios']
+    for i, p in enumerate(prios):
+        cls = Rebalance if i == case['actor'] else Rec
+        model.systems.add_system(cls(f's{i}', model, priority=p))
+    for _ in range(case['t'] + 2):
+        model.execute()
+    for t in range(case['t'] + 2):
+        ran = [k for tt, k in log if tt == t]
+        if sorted(ran) != sorted(f's{i}' for i in range(len(prios))):
+            raise Violation(f'timestep {t}: the queue was put in order in place ({case["how"]}) by s{case["actor"]} during timestep '
+                            f'{case["t"]}: every registered system runs exactly once per timestep', expected=len(prios),
+                            observed=ran)
+    return len(log)
+
+
+def resort_cases():
+    for prios in ([3, 2, 1, 0], [1, 1, 1, 1], [2, 2, 0, 0, -1]):
+        for actor in range(len(prios)):
+            for t in (0, 1):
+                yield {'leg': 'resort', 'prios': prios, 'actor': actor, 't': t, 'how': 'reverse'}
+                for bump in ({'s0': -5}, {f's{len(prios) - 1}': 9}, {'s1': 0, 's2': 7}):
+                    yield {'leg': 'resort', 'prios': prios, 'actor': actor, 't': t, 'how': 'sort', 'bump': bump}
+
+
 def nested_cases():
     for order in ('remover_first', 'stepper_first'):
         for t in (0, 1):
@@ -629,7 +677,15 @@ def run(ctx):
         except Violation as v:
             ctx.report(case, v)
             return
-    ctx.leg('nested', note='a removal followed by a nested step of the same model inside the same timestep')
+    for case in resort_cases():
+        ctx.traces += 1
+        try:
+            ctx.transitions += hbfs._guard(resort_case, case)
+        except Violation as v:
+            ctx.report(case, v)
+            return
+    ctx.leg('nested', note='a removal followed by a nested step of the same model inside the same timestep; the public queue '
+                           'sorted / reversed in place from inside a turn')
     cases = list(scenarios(ctx.tier))
     if ctx.small:
         cases = [c for c in cases if c['leg'] == 'one_action']
@@ -644,5 +700,8 @@ def run(ctx):
 def replay(case):
     if case['leg'] == 'nested':
         hbfs._guard(nested_case, case)
+        return
+    if case['leg'] == 'resort':
+        hbfs._guard(resort_case, case)
         return
     hbfs._guard(run_scenario, case)
